@@ -12,6 +12,7 @@ from vf.writers import vhdx as w
 
 ID = "C03"
 LEVEL = "exploration"
+STEP_BUDGET = 3_000_000  # line events per case; a case that exceeds it is reported as non-termination
 ANCHOR_FILES = ["dissect/hypervisor/disk/vhdx.py"]
 RULE = (
     "Non-differencing VHDX files written by an independent writer from a content model: block sizes 1..32 MiB "
